@@ -205,8 +205,8 @@ func buildMetadata(alert *gtfsrt.Alert) (string, bool) {
 	nyctAlert := proto.GetExtension(alert, gtfsrt.E_MercuryAlert).(*gtfsrt.MercuryAlert)
 
 	metadata := Metadata{
-		CreatedAt:           time.Unix(int64(nyctAlert.GetCreatedAt()), 0),
-		UpdatedAt:           time.Unix(int64(nyctAlert.GetUpdatedAt()), 0),
+		CreatedAt:           time.Unix(int64(nyctAlert.GetCreatedAt()), 0).UTC(),
+		UpdatedAt:           time.Unix(int64(nyctAlert.GetUpdatedAt()), 0).UTC(),
 		DisplayBeforeActive: time.Duration(nyctAlert.GetDisplayBeforeActive()) * time.Second,
 	}
 
